@@ -91,6 +91,8 @@ class Chan(Engine):
                 maxn = 90 - len(hrp) - 1 - 6 - 1
                 while (n * 8 + 4) // 5 > maxn:
                     n -= 1
+                if rng.random() < 0.15:
+                    steps.append({'op': 'crafted', 'hrp': hrp, 'ver': rng.randint(0, 16), 'seed': rng.randrange(256)})
                 steps.append({'op': 'bech32', 'hrp': hrp, 'ver': ver, 'prog': gen.rhex(rng, n),
                               'doubles': 'all' if (tier == 'thorough' and rng.random() < 0.04) else rng.choice([600, 1500]),
                               'multi': [[rng.randrange(1 << 16) for _ in range(8)] for _ in range(rng.choice([200, 400]))],
@@ -129,6 +131,10 @@ class Chan(Engine):
             # total string lengths around the 90-character limit, reached with long prefixes
             for lo in range(1, 84, 6):
                 P({'op': 'length_edge', 'lo': lo, 'hi': min(84, lo + 6)})
+            # byzantine encoder: valid checksum, exactly one BIP173 rule broken
+            for hrp in ('bc', 'tb', 'bcrt'):
+                for ver in (0, 1, 2, 16):
+                    P({'op': 'crafted', 'hrp': hrp, 'ver': ver, 'seed': 17 * ver + len(hrp)})
         return plans
 
     # ------------------------------------------------------------------ execution
@@ -525,6 +531,46 @@ class Chan(Engine):
                 got = self._dec(hrp, want)
                 ctx.check(got is None, 'C11.len', 'decoder accepts (version %d, %d-byte program), which BIP173 forbids' % (ver, n), ver=ver, plen=n)
         ctx.log(0, 0, 'codec_lengths', [hrp, ver], 'ok')
+
+    def _craft(self, hrp, data5):
+        return hrp + '1' + ''.join(CS[d] for d in list(data5) + RB32.checksum(hrp, data5))
+
+    def _op_crafted(self, a):
+        """Strings a hostile encoder could produce: checksum valid, one rule of BIP173 broken."""
+        ctx = self.ctx
+        hrp, ver = a['hrp'], a['ver']
+        sd = a['seed']
+        for n in range(0, 43):
+            prog = bytes((13 * i + n + sd) & 0xff for i in range(n))
+            d5 = RB32.to5(prog)
+            nbits = (n * 8) % 5
+            variants = {
+                'canonical': [ver] + d5,
+                'extra-zero-group': [ver] + d5 + [0],
+                'two-extra-zero-groups': [ver] + d5 + [0, 0],
+                'version-17': [17] + d5, 'version-31': [31] + d5,
+                'no-version': d5,
+            }
+            if nbits:
+                bad = list(d5)
+                bad[-1] |= 1           # non-zero padding bit
+                variants['nonzero-padding'] = [ver] + bad
+            else:
+                variants['extra-nonzero-group'] = [ver] + d5 + [1]
+            for name, data5 in variants.items():
+                text = self._craft(hrp, data5)
+                for rendering in (text, text.upper()):
+                    self._b32_judge(hrp, rendering, 'crafted with a valid checksum (%s, version %d, %d-byte program)' % (name, ver, n), (ver, prog), False,
+                                    fault='crafted', rule=name)
+            # wrong prefix / prefix of another chain with a checksum valid for that prefix
+            for other in ('bc', 'tb', 'bcrt', hrp + 'x', hrp[:-1] or 'b'):
+                if other != hrp:
+                    self._b32_judge(hrp, self._craft(other, [ver] + d5), 'crafted for prefix %r' % other, (ver, prog), False, fault='crafted', rule='other-hrp')
+            # checksum computed over the upper-case prefix (mixed-case trap)
+            t = self._craft(hrp, [ver] + d5)
+            self._b32_judge(hrp, hrp.upper() + t[len(hrp):], 'with only the prefix in upper case', (ver, prog), False, fault='crafted', rule='mixed')
+        ctx.fault('byzantine-encoder', 43 * 12)
+        ctx.log(0, 0, 'crafted', [hrp, ver], 'ok')
 
     def _op_length_edge(self, a):
         ctx = self.ctx
